@@ -216,8 +216,9 @@ def check(run):
                 continue
             if any(h["signature"] == "oracle:" + sig for h in run.oracle_hits):
                 continue
-            small = G.shrink(tree, lambda t: any(s == sig for s, _ in G.oracle(t, G.load_real(t, rank0))))
-            run.violation("oracle:" + sig, text, {"tree": small, "rank0": rank0, "observed": G.load_real(small, rank0)})
+            small = G.shrink(tree, lambda t: any(s == sig for s, _ in G.oracle(t, G.load_real(t, rank0, after_failed_load=again))))
+            run.violation("oracle:" + sig, text, {"tree": small, "rank0": rank0, "after_failed_load": again,
+                                                  "observed": G.load_real(small, rank0, after_failed_load=again)})
         if representable(obs):
             cases.append((tree, rank0, obs))
         else:
@@ -269,8 +270,9 @@ def replay(path):
         print("nothing to replay in", path)
         return 2
     rank0 = rp.get("rank0", 1)
-    obs = G.load_real(tree, rank0)
+    obs = G.load_real(tree, rank0, after_failed_load=bool(rp.get("after_failed_load")))
     hits = [h for h in G.oracle(tree, obs) if h[0] not in OUT_OF_SCOPE]
-    print(json.dumps({"tree": tree, "rank0": rank0, "observed": obs, "oracle": hits}, indent=1))
+    print(json.dumps({"tree": tree, "rank0": rank0, "after_failed_load": bool(rp.get("after_failed_load")), "observed": obs,
+                      "oracle": hits}, indent=1))
     sig = r.get("signature")
     return 1 if any("oracle:" + h[0] == sig for h in hits) or (hits and not sig) else 0
